@@ -882,13 +882,12 @@ public:
 
         if(_clearProps) {
             clear_all_props();
-        } else {
-            // Resize props
-            resize_vprops(0u);
-            resize_eprops(0u);
-            resize_fprops(0u);
-            resize_cprops(0u);
         }
+        // Resize props
+        resize_vprops(0u);
+        resize_eprops(0u);
+        resize_fprops(0u);
+        resize_cprops(0u);
     }
 
     //=====================================================================
